@@ -9,5 +9,5 @@ CONSTANTS
   RawIds <- RawAll
   FillSet = {0, 255}
   LSteps = 2
-INVARIANTS ThRoundTrip ThSize ThCodecTotal ThFraming ThMisaligned ThConsistent Emit
+INVARIANTS All
 CHECK_DEADLOCK FALSE
